@@ -112,7 +112,11 @@ def gen_docs(rng, n, big=False):
             elif kind == 4 and prev is not None:
                 v = D(Prev=prev, Self=Ref(max(d.objects) + 1))
             elif kind == 5:
-                v = Stream(D(Marker=k), bytes(rng.randrange(256) for _ in range(rng.choice([0, 1, 100, 3000]))))
+                if rng.random() < 0.5:
+                    v = Stream(D(Marker=k), bytes(rng.randrange(256) for _ in range(rng.choice([0, 1, 100, 3000]))))
+                else:
+                    # sizes around the writer's filter/compress decisions: empty, tiny, and highly compressible data
+                    v = Stream(D(Marker=k), rng.choice([b"", b"q Q", b"\n" * 200, b"q Q" + b"\n" * 200, b"0 " * 40, bytes(33), bytes(31), b"x" * 16]))
             elif kind == 6:
                 raw = bytes(rng.choice(b"abc \n") for _ in range(rng.choice([10, 500])))
                 v = Stream({b"Filter": N("FlateDecode")}, zlib.compress(raw))
@@ -122,7 +126,14 @@ def gen_docs(rng, n, big=False):
             extras[b"X%d" % k] = prev
         if extras:
             d.objects[1][b"Extras"] = d.add(extras)
-        d.trailer[b"Info"] = d.add(D(Title=Str(b"doc %d" % i), Producer=Str(b"verif")))
+        info = D(Title=Str(b"doc %d" % i), Producer=Str(b"verif"))
+        r = rng.random()
+        if r < 0.75:
+            d.trailer[b"Info"] = d.add(info)
+        elif r < 0.9:
+            d.trailer[b"Info"] = info                     # direct /Info dictionary (unusual, legal to read)
+        if rng.random() < 0.15:
+            d.trailer[b"Note"] = Str(b"direct trailer string %d" % i)
         data, _ = pdfgen.write_classic(d, with_id=(b"0123456789abcdef", b"fedcba9876543210") if rng.random() < 0.7 else None)
         out.append(("gen%d" % i, data, d))
     return out
